@@ -292,6 +292,25 @@ func wireCase(rep *Report, s *glue.Subject, d MD, idx int) {
 				if !bytes.Equal(SpecEncode(stripUnknown(Canon(ir))), fpKnown) {
 					rep.Violate("C14", "wire/setunknown-touches-known", tn, "SetUnknown changed known fields", rc)
 				}
+				// save / replace / restore, and swapping sets between two messages
+				big := append(append(protoreflect.RawFields{}, nu...), g.UnknownRecord(d, 0)...)
+				S.ProtoReflect().SetUnknown(big)
+				saved := S.ProtoReflect().GetUnknown()
+				savedCopy := append([]byte{}, saved...)
+				S.ProtoReflect().SetUnknown(protoreflect.RawFields{0xc0, 0x3e, 0x07})
+				S.ProtoReflect().SetUnknown(saved)
+				if got := S.ProtoReflect().GetUnknown(); !bytes.Equal(got, savedCopy) {
+					rep.Violate("C14", "wire/setunknown-save-restore", tn, fmt.Sprintf("u := GetUnknown(); SetUnknown(v); SetUnknown(u): GetUnknown=%x, originally %x", got, savedCopy), rc)
+				}
+				T := newOf(s.Zero)
+				T.ProtoReflect().SetUnknown(protoreflect.RawFields{0xc8, 0x3e, 0x01})
+				a, b := S.ProtoReflect().GetUnknown(), T.ProtoReflect().GetUnknown()
+				ac, bc := append([]byte{}, a...), append([]byte{}, b...)
+				S.ProtoReflect().SetUnknown(b)
+				T.ProtoReflect().SetUnknown(a)
+				if !bytes.Equal(S.ProtoReflect().GetUnknown(), bc) || !bytes.Equal(T.ProtoReflect().GetUnknown(), ac) {
+					rep.Violate("C14", "wire/setunknown-swap", tn, fmt.Sprintf("swapping the unknown sets of two messages: got %x / %x, want %x / %x", S.ProtoReflect().GetUnknown(), T.ProtoReflect().GetUnknown(), bc, ac), rc)
+				}
 				S.ProtoReflect().SetUnknown(nil)
 				if len(S.ProtoReflect().GetUnknown()) != 0 {
 					rep.Violate("C14", "wire/setunknown-clear", tn, "SetUnknown(nil) does not clear", rc)
